@@ -83,6 +83,13 @@ func (c *Ctx) Emit(prop string, caseToks string, impl string) {
 	c.Cases++
 }
 
+// FlushNow writes out everything emitted so far (for an emergency exit after the code under test hung).
+func (c *Ctx) FlushNow() {
+	c.mu.Lock()
+	c.out.Flush()
+	c.mu.Unlock()
+}
+
 // Count adds to the generator/branch distribution printed into the evidence.
 func (c *Ctx) Count(key string) {
 	c.mu.Lock()
